@@ -316,6 +316,13 @@ def check_C19(tier):
                         expect_actions=["Refuse", "Sort", "Open", "Claim", "Finish", "Collect", "Write"], workers=8,
                         timeout=3000)
     res.add_mc(r)
+    # liveness of the same model: no stuck state before the end, and under weak fairness every run terminates
+    cfg_l = write_cfg("MC_RunCsv_live_" + tier, spec="FairSpec", invariants=["NoStuckState"], properties=["Terminates"],
+                      extra="CONSTANTS\n M = 4\n MaxFiles = %d\n MaxWorkers = %d\n FileUniverse <- UniverseDef" % (mf, mw))
+    rl = run_tlc("MC_RunCsv", cfg_l, "mc_runcsv_live_" + tier, workers=8, timeout=3000, coverage=False)
+    if rl["error"]:
+        raise ToolError("liveness check of MC_RunCsv failed: %s (see %s)" % (rl["error"], rl["out"]))
+    res.extra["liveness"] = {"property": "Terminates under WF_vars(Next); NoStuckState", "distinct_states": rl["distinct"]}
     # System.tla: the composition DAQ chunks -> event builder -> run bookkeeping with one fault anywhere;
     # every finished behaviour (sampled in the quick tier) is replayed through the real vertices binary
     nev = 2 if tier == "quick" else 3
